@@ -9,6 +9,7 @@ from .treemodel import MNode, World, sat_int, ARENA_STRINGS, KEY_POOL, STR_POOL,
 
 LONG_KEY_POOL = [b"k" * 63, b"k" * 64, b"K" * 64, b"k" * 63 + b"X", b"k" * 63 + b"Y", b"k" * 63 + b"x", b"k" * 65, b"q" * 127 + b"a", b"q" * 127 + b"b",
                  b"Q" * 127 + b"B", b"Long key " * 30, b"LONG KEY " * 30, b"long key " * 29 + b"long kez ", b"\xc3\xa9" * 40, b"z" * 1000, b"Z" * 999 + b"z"]
+LONG_STR_POOL = [b"L" * 72, b"m" * 100, b"long text " * 30, b"\xc3\xa9" * 60, b"x" * 1000, b"y" * 257, b"z" * 65]
 N_KEY_STRINGS = 11   # the first 11 arena strings are keys/values for items; the rest are read by utilities (stored replays keep their meaning)
 
 MAX_ROOTS = 10
@@ -673,7 +674,27 @@ class Interp:
         n = pick([x for x in w.all_nodes() if x.t == "S" and not (x.is_ref and x.dangling)], a)
         if n is None:
             return "skip"
-        s = STR_POOL[b % len(STR_POOL)]
+        s = STR_POOL[b % len(STR_POOL)] if b % 16 != 15 else LONG_STR_POOL[(b // 16) % len(LONG_STR_POOL)]
+        sarg = s
+        if c % 11 == 5:
+            # the new text is the text of ANOTHER string item (a separate block, possibly a close neighbour in memory)
+            others = [x for x in w.all_nodes() if x.t == "S" and x is not n and not x.is_ref and x.sval is not None]
+            m = pick(others, d)
+            if others and d & 1:
+                # the item whose text block lies highest in memory (under packed placement: the most recently allocated one)
+                m = max(others, key=lambda x: lib.shim_valuestring(x.ptr) or 0)
+            if m is not None:
+                if not n.is_ref and n.pins == 0 and len(n.sval) < len(m.sval) + 200 and d & 2:
+                    # first make the destination long: its new block is then allocated AFTER the source's (a close upper neighbour
+                    # under packed placement), and the copy below is a shortening in place
+                    big = b"x" * 1000
+                    if not lib.cJSON_SetValuestring(n.ptr, big):
+                        raise Violation("SetValuestring returned NULL without an allocation failure", key="return:SetValuestring")
+                    n.sval = big
+                    self.feat.add("string_grown")
+                s = m.sval
+                sarg = lib.shim_valuestring(m.ptr)
+                self.feat.add("set_string_from_other_item")
         if n.is_ref:
             w.expect("SetValuestring(reference string)", bool(lib.cJSON_SetValuestring(n.ptr, s)), False)
             return "set_string(on reference)"
@@ -685,7 +706,7 @@ class Interp:
             # the new value overlaps the old one (same bytes): refused or performed, the value is the same afterwards
             lib.cJSON_SetValuestring(n.ptr, old_ptr)
             return "set_string(overlap)"
-        got = lib.cJSON_SetValuestring(n.ptr, s)
+        got = lib.cJSON_SetValuestring(n.ptr, sarg)
         if not got:
             raise Violation("SetValuestring returned NULL without an allocation failure", key="return:SetValuestring")
         if got != lib.shim_valuestring(n.ptr):
